@@ -214,6 +214,16 @@ eval(struct expr *expr)
 			if (l->kind != EXPRCONST)
 				break;
 			return l->u.constant.u ? r : l;
+		case TDIV:
+		case TMOD:
+			/* division by zero and LLONG_MIN / -1 are not constant expressions, and would trap here */
+			if (r->kind == EXPRCONST && r->type->prop & PROPINT) {
+				if (r->u.constant.u == 0)
+					break;
+				if (r->type->u.basic.issigned && r->u.constant.i == -1 && l->kind == EXPRCONST && l->u.constant.i == LLONG_MIN)
+					break;
+			}
+			/* fallthrough */
 		default:
 			if (l->kind != EXPRCONST || r->kind != EXPRCONST)
 				break;
